@@ -82,7 +82,14 @@ func (kn keyNames) show(pk keys.DHPublicKey) string {
 }
 
 func showGrant(kn keyNames, user string, ag *authgrants.Authgrant) string {
-	return fmt.Sprintf("%d,%d,%d,%s,%s,%s", byte(ag.GrantType), ag.StartTime.Unix(), ag.ExpTime.Unix(),
+	// a bound that was never filled in (zero time.Time) is before every clock value: shown as 0
+	unix := func(t time.Time) int64 {
+		if t.IsZero() {
+			return 0
+		}
+		return t.Unix()
+	}
+	return fmt.Sprintf("%d,%d,%d,%s,%s,%s", byte(ag.GrantType), unix(ag.StartTime), unix(ag.ExpTime),
 		HexOrDash([]byte(user)), kn.show(ag.DelegateCert.PublicKey), HexOrDash([]byte(ag.AssociatedData.CommandGrantData.Cmd)))
 }
 
@@ -167,13 +174,32 @@ func parseGrant(f []string) (g grantArgs, ok bool) {
 	gt, ok1 := natLt(f[0], 256)
 	st, ok2 := natLt(f[1], tMax)
 	ex, ok3 := natLt(f[2], tMax)
+	// `z`: the bound is left at the zero time.Time
+	zs, ze := f[1] == "z", f[2] == "z"
+	ok2, ok3 = ok2 || zs, ok3 || ze
 	u, ok4 := bytesLe(f[3], 255)
 	k, ok5 := natLt(f[4], 65536)
 	cmd, ok6 := bytesLe(f[5], 255)
 	if !(ok1 && ok2 && ok3 && ok4 && ok5 && ok6) {
 		return
 	}
-	return grantArgs{int(gt), int64(st), int64(ex), string(u), int(k), string(cmd)}, true
+	g = grantArgs{int(gt), int64(st), int64(ex), string(u), int(k), string(cmd)}
+	if zs {
+		g.start = unset
+	}
+	if ze {
+		g.exp = unset
+	}
+	return g, true
+}
+
+const unset = int64(-1)
+
+func timeOf(v int64) time.Time {
+	if v == unset {
+		return time.Time{}
+	}
+	return time.Unix(v, 0)
 }
 
 // issue <sess> <gtype> <start> <exp> <userHex> <key> <cmdHex> <leafOk>
@@ -183,7 +209,7 @@ func parseIssue(f []string) (sess int, g grantArgs, leafOk bool, ok bool) {
 	}
 	i, ok1 := natLt(f[1], 1000)
 	g, ok2 := parseGrant(f[2:8])
-	if !ok1 || !ok2 {
+	if !ok1 || !ok2 || g.start == unset || g.exp == unset {
 		return
 	}
 	if g.gtype == 3 || g.gtype == 4 || (g.gtype != 2 && g.cmd != "") || (g.exp > 1500000000 && g.exp < 3000000000) {
@@ -195,8 +221,8 @@ func parseIssue(f []string) (sess int, g grantArgs, leafOk bool, ok bool) {
 func (g grantArgs) intent(pk keys.DHPublicKey) *authgrants.Intent {
 	i := &authgrants.Intent{
 		GrantType:      authgrants.GrantType(g.gtype),
-		StartTime:      time.Unix(g.start, 0),
-		ExpTime:        time.Unix(g.exp, 0),
+		StartTime:      timeOf(g.start),
+		ExpTime:        timeOf(g.exp),
 		TargetSNI:      certs.DNSName("target.example"),
 		TargetUsername: g.user,
 		DelegateCert: certs.Certificate{Version: 1, Type: certs.Leaf, PublicKey: pk,
@@ -369,10 +395,18 @@ type genGrant struct {
 	user       string
 	key        int
 	cmd        string
+	zs, ze     bool // the bound is left unset (zero time.Time); start / exp are 0 then
 }
 
 func (gg genGrant) words() string {
-	return fmt.Sprintf("%d %d %d %s %d %s", gg.gtype, gg.start, gg.exp, HexOrDash([]byte(gg.user)), gg.key, HexOrDash([]byte(gg.cmd)))
+	st, ex := strconv.FormatUint(gg.start, 10), strconv.FormatUint(gg.exp, 10)
+	if gg.zs {
+		st = "z"
+	}
+	if gg.ze {
+		ex = "z"
+	}
+	return fmt.Sprintf("%d %s %s %s %d %s", gg.gtype, st, ex, HexOrDash([]byte(gg.user)), gg.key, HexOrDash([]byte(gg.cmd)))
 }
 
 func genState(g *GenCtx) {
@@ -395,6 +429,18 @@ func genState(g *GenCtx) {
 	g.Op("exec 0 1500 0 %s 0", HexOrDash([]byte("lsx")))
 	g.Op("exec 0 1500 0 %s 0", HexOrDash([]byte("ls")))
 	g.Op("exec 0 1500 0 %s 0", HexOrDash([]byte("ls"))) // all used
+	// bounds that were never filled in (zero time.Time): no expiry = always expired, no start = effective at once
+	g.Op("new")
+	g.Op("grant 2 1000 z %s 1 %s", HexOrDash([]byte("u")), HexOrDash([]byte("ls")))
+	g.Op("grant 2 z 2000 %s 1 %s", HexOrDash([]byte("u")), HexOrDash([]byte("id")))
+	g.Op("grant 1 z z %s 1 -", HexOrDash([]byte("u")))
+	g.Op("dump")
+	g.Op("login %s 1", HexOrDash([]byte("u")))
+	g.Op("exec 0 1500 0 %s 0", HexOrDash([]byte("ls")))
+	g.Op("exec 0 0 0 %s 0", HexOrDash([]byte("ls")))
+	g.Op("exec 0 1500 0 - 1")
+	g.Op("exec 0 2000 0 %s 0", HexOrDash([]byte("id")))
+	g.Op("exec 0 5 0 %s 0", HexOrDash([]byte("id")))
 
 	n := 3000
 	if g.Thorough() {
@@ -433,6 +479,12 @@ func genState(g *GenCtx) {
 			}
 			if g.R.Chance(1, 12) && gg.start >= 50 {
 				gg.exp = gg.start - 50 // expires before it starts
+			}
+			if g.R.Chance(1, 14) {
+				gg.ze, gg.exp = true, 0 // the expiry was never filled in: such a grant is never valid
+			}
+			if g.R.Chance(1, 25) {
+				gg.zs, gg.start = true, 0
 			}
 			if gg.gtype != 2 && g.R.Chance(2, 3) {
 				gg.cmd = ""
